@@ -18,7 +18,7 @@ def models(tier):
     ms = []
     for n, (pol, cap, ml) in enumerate(cfgs):
         consts = dict(MaxLen=ml, Vals={1, 2}, Policy=pol, InitCap=cap)
-        combos = [(objs[n % len(objs)], n % 4)] + ([(objs[(n + 1) % len(objs)], (n + 1) % 4)] if tier == "thorough" else [])
+        combos = [(objs[n % len(objs)], n % 5)] + ([(objs[(n + 1) % len(objs)], (n + 1) % 4)] if tier == "thorough" else [])
         ms.append(dict(tag="%s-%d" % (pol, cap), consts=consts, invariants=["TypeOK", "CapOK"],
                        properties=["RefusalsHarmless", "GrowthPreserves"], workers=2, replays=_replays(pol, cap, combos)))
     return ms
